@@ -262,6 +262,13 @@ def identical(interp, a, b):
 
 def equal(interp, a, b):
     ctx = interp.ctx
+    if isinstance(a, ClassOf) and isinstance(b, ClassOf):
+        # type(x) == type(y) for two symbolic nodes: their class tags agree
+        da, db = ctx.data(a.obj), ctx.data(b.obj)
+        if da.kind == 'node' and db.kind == 'node':
+            return da.tagvar == db.tagvar
+        if da.kind == 'inst' and db.kind == 'inst':
+            return da.cls is db.cls
     if interp.policy is not None and (isinstance(a, Opaque) or isinstance(b, Opaque)):
         r = interp.policy.equal_opaque(interp, a, b)
         if r is not PROCEED:
